@@ -26,8 +26,8 @@ def make_content(rng, opts=None):
     if o.get('dense_ids'): ids = list(range(1, 9))
     gp, ga = ids[0], ids[1]
     extra_groups = [(ids[2 + k], b'EXTRA%d' % k) for k in range(rng.choice([0, 1, 2, 3]))]
-    nlabels = o.get('nlabels', rng.choice([npoints, npoints, max(0, npoints - 1), npoints + 2]))
-    nalabels = o.get('nalabels', rng.choice([nchan, nchan, max(0, nchan - 1), nchan + 1]))
+    nlabels = o.get('nlabels', rng.choice([npoints, npoints, max(0, npoints - 1), max(0, npoints - 2), max(0, npoints - 3), 0, npoints + 2]))
+    nalabels = o.get('nalabels', rng.choice([nchan, nchan, max(0, nchan - 1), max(0, nchan - 2), max(0, nchan - 3), 0, nchan + 1]))
     def labels(n, prefix, w=None):
         names = []
         while len(names) < n:
